@@ -398,14 +398,26 @@ def check_C16(args):
                 views = {}
                 for l in lines:
                     if l["a"] == "View" and l["at"] == "s0":
-                        views.setdefault(l["t"], {})[l["node"]] = rows_to_cells(l["rows"])
+                        # (dimension values of different types can print alike - float32 / float64 1.5 -
+                        # and then are different rows of one node: cells are added up, not overwritten)
+                        cells = {}
+                        for r_ in l["rows"]:
+                            cells[(r_[0], r_[1], r_[2], r_[3])] = cells.get((r_[0], r_[1], r_[2], r_[3]), 0) + r_[4]
+                        views.setdefault(l["t"], {})[l["node"]] = cells
                 for tn, nodes in views.items():
                     total = {}
                     for node, cells in nodes.items():
                         if node != "standalone":
                             for k, c in cells.items():
                                 total[k] = total.get(k, 0) + c
-                    d = diff_cells(total, nodes.get("standalone", {}))
+                    # several of these points carry the same value in one cell: the base-4 digits of
+                    # a sum carry over, so the cells are compared by value, not digit by digit
+                    def by_value(cells):
+                        out = {}
+                        for (k, p, f, digit), c in cells.items():
+                            out[(k, p, f)] = out.get((k, p, f), 0) + c * 4 ** digit
+                        return {k: v for k, v in out.items() if v}
+                    d = diff_cells(by_value(total), by_value(nodes.get("standalone", {})))
                     if d:
                         k = sorted(d, key=repr)[0]
                         rp = common.save_replay(pid, sc_["scn"] + "-" + tn, {"cluster": sc_, "diff": [[list(x), d[x]] for x in sorted(d, key=repr)][:10]})
